@@ -30,6 +30,7 @@ func c13(c *Ctx) {
 	c13loadApplies(c)
 	c13kubeTombstone(c)
 	c13optionsFirst(c)
+	c13stickyDisconnect(c)
 	c13waitHolding(c)
 }
 
